@@ -1,8 +1,12 @@
-(* TreeInv.v — definitions for the end-to-end theorem about the tree model:
-   the combined system "collection + store" over an arbitrary merge operator,
-   batch well-formedness, selections of the live child of a section, reading
-   a stack tree as a reference tree, paths.  Definitions only; the proofs are
-   in TreeInvFacts.v.  Nothing here is extracted. *)
+(* TreeInv.v — definitions for the end-to-end theorems about the tree model:
+   the combined system "collection + store" over an arbitrary merge operator
+   (cst, clabel, cstep, crun, cinit; crun_pre_fix is the same system with the
+   hand-over as it was before the repair of finding F28), batch
+   well-formedness (tb_distinct: distinct child names per batch node),
+   selections of the live child of a section (sel, fsel), reading a stack
+   tree as a reference tree (reads_as), reading a footer tree on its own
+   (fn_reads_mod), paths (ss_at, rt_at).  Definitions only; the proofs are in
+   TreeInvFacts.v.  Nothing here is extracted. *)
 From Coq Require Import List NArith Bool.
 From Moss Require Import Bytes Segment Stack Collection Store Tree TreeColl.
 Import ListNotations.
@@ -173,15 +177,6 @@ Section WithMerge.
                        reads_as cs cr) ->
       reads_as s r.
 
-  (* the footer tree, read on its own *)
-  Inductive fn_reads_as : fnode -> rtree -> Prop :=
-  | FRA f r :
-      (forall k, sget fm (fn_segs f) no_below k = rt_get fm r k) ->
-      (forall n, In n (map fst (fn_kids f)) <-> In n (map fst (rt_kids r))) ->
-      (forall n cf cr, assoc n (fn_kids f) = Some cf -> assoc n (rt_kids r) = Some cr ->
-                       fn_reads_as cf cr) ->
-      fn_reads_as f r.
-
   (* the footer tree on its own, up to the existence of EMPTY child collections:
      every child footer belongs to a child of the reference and reads as it;
      a child of the reference without a footer holds no key at any depth *)
@@ -211,9 +206,4 @@ Fixpoint rt_at (t : rtree) (p : list cname) : option rtree :=
   match p with
   | [] => Some t
   | n :: q => match assoc n (rt_kids t) with Some c => rt_at c q | None => None end
-  end.
-Fixpoint fn_at (f : fnode) (p : list cname) : option fnode :=
-  match p with
-  | [] => Some f
-  | n :: q => match assoc n (fn_kids f) with Some c => fn_at c q | None => None end
   end.
